@@ -40,7 +40,7 @@ def G(name, harness, entry=None, srcs=(), defs=(), arch=64, enforce=(), replace=
       obj_bits=None, ndebug=False, fast=False, neg_control=False, cfg_indep=False,
       no_shims=False, native_defs=(), stubs=(), expect_fail=(), dfcc=False,
       inline_loops=False, split=False, src_defs=(), spec_unwind=None, branch_hook=None,
-      native_cflags=()):
+      native_cflags=(), strip=None):
     """One obligation group.
     spec_unwind: unwinding bound for the loops of harness/spec functions (h_*, r_*, mon_*),
                 so that `unwind` can stay tight for the loops of the repository code
@@ -233,6 +233,24 @@ def strip_mem_preds(o, env):
     return o2
 
 
+def strip_bodies(o, names, env):
+    """remove function bodies that an assumed-contract stub replaces (listed in the evidence)"""
+    o2 = o[:-3] + "." + hashlib.sha1(",".join(names).encode()).hexdigest()[:8] + ".gb"
+    with _cache_guard:
+        lk = _cache_locks.setdefault(o2, threading.Lock())
+    with lk:
+        if os.path.exists(o2):
+            return o2
+        cmd = ["goto-instrument"]
+        for p in names:
+            cmd += ["--remove-function-body", p]
+        rc, out, err, _, _ = slot_sh(cmd + [o, o2 + ".part"], timeout=120, env=env)
+        if rc != 0:
+            raise Infra("remove-function-body failed: %s" % (err or out)[-800:])
+        os.rename(o2 + ".part", o2)
+    return o2
+
+
 def build_goto(g, wd, env, pid="X"):
     rw = apply_rewrites(g, wd)
     cfg = (["-DNDEBUG"] if g["ndebug"] else []) + (["-DSAFE_FAST"] if g["fast"] else [])
@@ -264,6 +282,9 @@ def build_goto(g, wd, env, pid="X"):
             o = cached_compile(pid, path, flags, env)
             if path.endswith("core/mem.c") and not g["no_shims"]:
                 o = strip_mem_preds(o, env)
+            for sp, names in (g["strip"] or {}).items():
+                if path.endswith(sp):
+                    o = strip_bodies(o, names, env)
         objs.append(o)
     a = os.path.join(wd, "a.gb")
     cmd = ["goto-cc"] + (["-m32"] if g["arch"] == 32 else []) + ["--function", g["entry"]] + objs + ["-o", a]
